@@ -788,6 +788,15 @@ pub fn signed_bitmessage_to_buf(
         return Err(ProtoError::from("TSIG signature record not found"));
     };
 
+    // RFC 8945 5.1: the TSIG RR is the last record of the message; its CLASS and TTL are part of
+    // the digest and MUST be ANY / 0
+    if !decoder.is_empty() {
+        return Err(ProtoError::from("unexpected data after the TSIG record"));
+    }
+    if tsig_rr.dns_class != DNSClass::ANY || tsig_rr.ttl != 0 {
+        return Err(ProtoError::from("TSIG record with CLASS other than ANY or TTL other than 0"));
+    }
+
     let tsig = &tsig_rr.data;
     metadata.id = tsig.oid;
 
@@ -801,8 +810,14 @@ pub fn signed_bitmessage_to_buf(
         encoder.emit_slice(previous_hash)?;
     }
 
-    // Emit the header we modified to remove the TSIG additional record.
-    Header { metadata, counts }.emit(&mut encoder)?;
+    // Emit the header as received (RFC 8945 4.3.3: the DNS message in wire format), with the
+    // original ID restored and the TSIG record taken out of ARCOUNT. Re-encoding the parsed
+    // header would drop bits the parser does not keep (Z) from the digest.
+    let mut raw_header = [0u8; 12];
+    raw_header.copy_from_slice(&message[..12]);
+    raw_header[0..2].copy_from_slice(&metadata.id.to_be_bytes());
+    raw_header[10..12].copy_from_slice(&counts.additionals.to_be_bytes());
+    encoder.emit_slice(&raw_header)?;
 
     // Emit all the message data between the header and the TSIG record.
     encoder.emit_slice(&message[start_data..end_data])?;
